@@ -85,6 +85,9 @@ pub fn fst_of(cons: &str, j: u64, n: u64) -> &'static Vec<u8> {
             "nested" => (keygen(n, 99), n / (j + 1)),
             "ranges" | "disjoint" => (keygen(8 * n, 96), 8 * n),
             "tiny" => (keygen(n, 0), n),
+            // long keys of varying length (72..=106 bytes): a constant 60-byte prefix, a fixed-length
+            // counter value (family fix) that decides the order, and a tail of 0..=34 bytes
+            "long" => (keygen(n, 3 * j + 2), n),
             _ => panic!("construction"),
         };
         for i in 0..total {
@@ -95,7 +98,13 @@ pub fn fst_of(cons: &str, j: u64, n: u64) -> &'static Vec<u8> {
                 "tiny" => i % (n / 10) == n / 20,
                 _ => true,
             };
-            if take {
+            if cons == "long" {
+                let mut lk = vec![b'L'; 60];
+                lk.extend_from_slice(k);
+                let tail = (i.wrapping_mul(0x9E37_79B9_7F4A_7C15) >> 40) % 35;
+                lk.extend(std::iter::repeat(b'~').take(tail as usize));
+                b.insert(&lk, i * 3 + j).unwrap();
+            } else if take {
                 b.insert(k, i * 3 + j).unwrap();
             }
         }
@@ -107,7 +116,8 @@ pub fn fst_bytes(n: u64, variant: u64) -> &'static Vec<u8> {
 }
 
 /// Overlap shapes of the k inputs of a set operation.
-pub const SHAPES: [&str; 6] = ["ident", "dense", "disjoint", "ranges", "nested", "tiny"];
+pub const SHAPES: [&str; 7] = ["ident", "dense", "disjoint", "ranges", "nested", "tiny", "long"];
+pub const LONG_MAXKEY: usize = 60 + KEYLEN + 34;
 pub fn inputs(shape: &str, k: u64, n: u64) -> Vec<&'static Vec<u8>> {
     (0..k)
         .map(|j| match shape {
@@ -116,6 +126,7 @@ pub fn inputs(shape: &str, k: u64, n: u64) -> Vec<&'static Vec<u8>> {
             "disjoint" => fst_of("disjoint", j, n),
             "ranges" => fst_of("ranges", j, n),
             "nested" => fst_of("nested", j, n),
+            "long" => fst_of("long", j, n),
             "tiny" => {
                 if j == 0 {
                     fst_of("tiny", 0, n)
@@ -387,7 +398,7 @@ impl Prop for P {
             for op in OP_KINDS {
                 for shape in SHAPES {
                     for k in 2..=8u64 {
-                        cases.push(format!("op {} {} {} {} {}", op, shape, k, n, MAXKEY));
+                        cases.push(format!("op {} {} {} {} {}", op, shape, k, n, if shape == "long" { LONG_MAXKEY } else { MAXKEY }));
                         stats.bump("set_operations");
                         stats.bump(&format!("set_operations_{}", shape));
                     }
